@@ -56,7 +56,14 @@ func variadicElems(v ssa.Value) ([]ssa.Value, bool) {
 // ok: the name is an injective function of a value that identifies the page
 // (a key of the map that hands out unique keys, or the letter parameter);
 // otherwise why names the step that can map two pages to one name.
+type originOf struct{ origin, why string }
+
 func nameOrigin(v ssa.Value, depth int) (origin string, why string) {
+	return nameOriginEnv(v, depth, nil)
+}
+
+// nameOriginEnv: env gives the origin of the parameters of a helper that is being looked through.
+func nameOriginEnv(v ssa.Value, depth int, env map[*ssa.Parameter]originOf) (origin string, why string) {
 	if depth > 8 {
 		return "", "a computation this rule cannot follow"
 	}
@@ -64,10 +71,13 @@ func nameOrigin(v ssa.Value, depth int) (origin string, why string) {
 	case *ssa.Const:
 		return "constant", ""
 	case *ssa.MakeInterface:
-		return nameOrigin(x.X, depth+1)
+		return nameOriginEnv(x.X, depth+1, env)
 	case *ssa.ChangeType:
-		return nameOrigin(x.X, depth+1)
+		return nameOriginEnv(x.X, depth+1, env)
 	case *ssa.Parameter:
+		if o, ok := env[x]; ok {
+			return o.origin, o.why
+		}
 		return "parameter " + x.Name(), ""
 	case *ssa.Extract:
 		if nx, ok := x.Tuple.(*ssa.Next); ok && x.Index == 1 {
@@ -81,17 +91,17 @@ func nameOrigin(v ssa.Value, depth int) (origin string, why string) {
 	case *ssa.BinOp:
 		if x.Op == token.ADD {
 			if _, ok := x.X.(*ssa.Const); ok {
-				return nameOrigin(x.Y, depth+1)
+				return nameOriginEnv(x.Y, depth+1, env)
 			}
 			if _, ok := x.Y.(*ssa.Const); ok {
-				return nameOrigin(x.X, depth+1)
+				return nameOriginEnv(x.X, depth+1, env)
 			}
 		}
 		return "", "a concatenation of two computed strings"
 	case *ssa.Phi:
 		var origins []string
 		for _, e := range x.Edges {
-			o, w := nameOrigin(e, depth+1)
+			o, w := nameOriginEnv(e, depth+1, env)
 			if w != "" {
 				return "", w
 			}
@@ -128,7 +138,29 @@ func nameOrigin(v ssa.Value, depth int) (origin string, why string) {
 			if verbs != 1 || len(elems) != 1 {
 				return "", fmt.Sprintf("a format with %d variable parts", verbs)
 			}
-			return nameOrigin(elems[0], depth+1)
+			return nameOriginEnv(elems[0], depth+1, env)
+		}
+		// a helper of the package itself: look through it with the origins of its arguments
+		if len(cal.Blocks) > 0 && cal.Pkg != nil && cal.Pkg.Pkg.Path() == load.PkgHTML && cal.Signature.Recv() == nil && len(cal.Params) == len(x.Call.Args) {
+			inner := map[*ssa.Parameter]originOf{}
+			for i, prm := range cal.Params {
+				o, w := nameOriginEnv(x.Call.Args[i], depth+1, env)
+				inner[prm] = originOf{o, w}
+			}
+			var origins []string
+			for _, b := range cal.Blocks {
+				if ret, ok := b.Instrs[len(b.Instrs)-1].(*ssa.Return); ok && len(ret.Results) == 1 {
+					o, w := nameOriginEnv(ret.Results[0], depth+1, inner)
+					if w != "" {
+						return "", w
+					}
+					origins = append(origins, o)
+				}
+			}
+			if len(origins) > 0 {
+				sort.Strings(origins)
+				return strings.Join(origins, " | "), ""
+			}
 		}
 		name := cal.Name()
 		if cal.Pkg != nil {
